@@ -438,6 +438,15 @@ def sessRunG (saveOk : Report → Bool) (strat : Strategy) (clock : Nat → Nat)
     | .ok s' => sessRunG saveOk strat clock s' es
     | .error err => (s, some err)
 
+/-- Several file backends attached to one run (`--reporting json xml junit`: one `FileReportSession` each, the same
+    strategy, the same handler thread, called in subscription order): `bs` says for each whether saving this report
+    succeeds.  The save of the run succeeds iff every backend's does — the first one that raises stops the loop. -/
+def allOk (bs : List (Report → Bool)) (r : Report) : Bool := bs.all (fun b => b r)
+
+/-- how many of the attached backends have refreshed their file when the loop stops: those subscribed before the first
+    one that raises -/
+def refreshedBeforeRaise (bs : List (Report → Bool)) (r : Report) : Nat := (bs.takeWhile (fun b => b r)).length
+
 /-! ### which strategy a run uses: `--save-report`, `$LCC_SAVE_REPORT`, the default -/
 
 /-- Python truthiness of `cli_args.save_report` / `os.environ.get(…)`: absent and `""` are falsy -/
